@@ -80,11 +80,20 @@ Fixpoint cert_steps (w : world) (t : list act) (steps : list (nat * act)) : bool
     else (false, t)
   end.
 
+(* eval_multi's accumulated cost: route-level estimate + the activity-level estimate of every step on its shadow tour *)
+Fixpoint multi_cost (w : world) (t : list act) (steps : list (nat * act)) : Z :=
+  match steps with
+  | [] => 0
+  | (idx, a) :: r => cost_estimate_activity (wdur w) (wdist w) (w_veh w) t idx a
+                     + multi_cost w (reschedule (wdur w) (insert_after t idx a)) r
+  end.
+
 Definition run_multi_cert (w : world) (acts : list tact) (steps : list (nat * tact)) :=
   let t := build_tour w acts in
-  let '(ok, t') := cert_steps w t (map (fun s => (fst s, act_of (snd s))) steps) in
+  let st := map (fun s => (fst s, act_of (snd s))) steps in
+  let '(ok, t') := cert_steps w t st in
   (sched_out t, (if feasible (wdur w) (w_veh w) t then 1 else 0), (if ok then 1 else 0),
-   (if feasible (wdur w) (w_veh w) t' then 1 else 0)).
+   (if feasible (wdur w) (w_veh w) t' then 1 else 0), cost_estimate_route (w_veh w) t + multi_cost w t st).
 
 (* ---------- C20: quotes vs realised objective changes on one target tour ---------- *)
 From VRP Require Import Model.Objectives.
